@@ -72,6 +72,30 @@ theorem BufB.lockRows {rw} {b : Buf} (h : BufB rw b) (x y w : Int) (lock : Bool)
   | zero => exact h
   | succ n ih => simp only [Tcell.lockRows]; exact row _ ih _ _ _
 
+theorem BufB.lockRow {rw} {b : Buf} (h : BufB rw b) (x y : Int) (lock : Bool) (k : Nat) : BufB rw (Tcell.lockRow b x y lock k) := by
+  induction k with
+  | zero => exact h
+  | succ k ih =>
+    simp only [Tcell.lockRow]; split
+    · intro i j; rw [lockCell_cells]; split
+      · exact (ih i j).setLock true
+      · exact ih i j
+    · intro i j; rw [unlockCell_cells]; split
+      · exact ((ih i j).setLock false).markDirty
+      · exact ih i j
+
+/-- the LockRegion of the repaired tree (re-dirtying of a wide left neighbour) keeps the Layer-B buffer facts as well -/
+theorem BufB.lockRowsG {rw} {b : Buf} (h : BufB rw b) (x y w : Int) (lock : Bool) (n : Nat) : BufB rw (Tcell.lockRowsG b x y w lock n) := by
+  induction n with
+  | zero => exact h
+  | succ n ih =>
+    simp only [Tcell.lockRowsG]
+    split
+    · unfold Tcell.redirtyLeft; split
+      · exact (ih.lockRow _ _ _ _).setDirty _ _ _
+      · exact ih.lockRow _ _ _ _
+    · exact ih.lockRow _ _ _ _
+
 theorem BufB.resize {rw} {b : Buf} (h : BufB rw b) (w' h' : Int) : BufB rw (b.resize w' h') := by
   by_cases hh : b.h = h' ∧ b.w = w'
   · obtain ⟨rfl, rfl⟩ := hh; rw [resize_same]; exact h
@@ -156,15 +180,15 @@ theorem payloadOk_cellText {c : DrawCfg} (hrw : RwOk c.rw) (hrb : RwB c.rw) (hp 
     rw [if_neg hne]
     refine ⟨⟨obsMain c.rw cm, comb, rfl, hm.1, hm.2.1, hm.2.2.1, hm.2.2.2, by omega, hc⟩, fun _ => by simp only; omega⟩
 
-theorem drawCell_eq_plain (c : DrawCfg) (hct : c.cornerTrick = false) (s : Scr) (x y : Int) :
+theorem drawCell_eq_plain (c : DrawCfg) (hct : c.Plain) (s : Scr) (x y : Int) :
     s.drawCell c x y = s.drawCellPlain c x y := by
   unfold Scr.drawCell
-  have hn : ¬ (y = s.h - 1 ∧ x = s.w - 1 ∧ c.cornerTrick = true) := by simp [hct]
+  have hn : ¬ (y = s.h - 1 ∧ x = s.w - 1 ∧ c.cornerTrick = true) := by simp [hct.ct]
   by_cases hd : ¬ (s.cells.dirty x y = true)
   · rw [if_pos hd]; unfold Scr.drawCellPlain; rw [if_pos hd]
   · rw [if_neg hd, if_neg hn]
 
-theorem visit_step {c : DrawCfg} (hrw : RwOk c.rw) (hrb : RwB c.rw) (hp : Utf8Payload c) (hct : c.cornerTrick = false)
+theorem visit_step {c : DrawCfg} (hrw : RwOk c.rw) (hrb : RwB c.rw) (hp : Utf8Payload c) (hct : c.Plain)
     {s : Scr} {t : ATerm} {x y : Int} (inv : AInv c s t) (hr : s.cells.inRange x y) :
     AdmitAll c t (s.visit c x y).2.1 ∧ AInv c (s.visit c x y).1 (t.applyAll (s.visit c x y).2.1) ∧
       1 ≤ (s.visit c x y).2.2 := by
@@ -197,7 +221,7 @@ theorem visit_step {c : DrawCfg} (hrw : RwOk c.rw) (hrb : RwB c.rw) (hp : Utf8Pa
     refine ⟨trivial, inv.kcur, inv.kpen, ?_⟩
     rw [getContent_wok hrw s.cells x y hr (inv.buf.wok x y)]
     exact (obsWidth_pos hrw _).1
-  · rw [Scr.drawCellPlain_dirty c s x y hd]
+  · rw [Scr.drawCellPlain_dirty c hct.ng s x y hd]
     have hgc := getContent_wok hrw s.cells x y hr (inv.buf.wok x y)
     rw [hgc]
     simp only
@@ -286,7 +310,7 @@ theorem visit_step {c : DrawCfg} (hrw : RwOk c.rw) (hrb : RwB c.rw) (hp : Utf8Pa
 
 /-! ## rows, the double loop, a whole draw -/
 
-theorem drawRow_admits {c : DrawCfg} (hrw : RwOk c.rw) (hrb : RwB c.rw) (hp : Utf8Payload c) (hct : c.cornerTrick = false) (y : Int) :
+theorem drawRow_admits {c : DrawCfg} (hrw : RwOk c.rw) (hrb : RwB c.rw) (hp : Utf8Payload c) (hct : c.Plain) (y : Int) :
     ∀ (fuel : Nat) (x : Int) (s : Scr) (t : ATerm), 0 ≤ x → 0 ≤ y → y < s.h → AInv c s t →
       AdmitAll c t (Scr.drawRow c y fuel x s).2 ∧ AInv c (Scr.drawRow c y fuel x s).1 (t.applyAll (Scr.drawRow c y fuel x s).2) := by
   intro fuel
@@ -307,7 +331,7 @@ theorem drawRow_admits {c : DrawCfg} (hrw : RwOk c.rw) (hrb : RwB c.rw) (hp : Ut
       exact ⟨⟨ad, r.1⟩, r.2⟩
     · rw [if_neg hlt]; exact ⟨trivial, inv⟩
 
-theorem drawRows_admits {c : DrawCfg} (hrw : RwOk c.rw) (hrb : RwB c.rw) (hp : Utf8Payload c) (hct : c.cornerTrick = false) :
+theorem drawRows_admits {c : DrawCfg} (hrw : RwOk c.rw) (hrb : RwB c.rw) (hp : Utf8Payload c) (hct : c.Plain) :
     ∀ (fuel : Nat) (y : Int) (s : Scr) (t : ATerm), 0 ≤ y → AInv c s t →
       AdmitAll c t (Scr.drawRows c fuel y s).2 ∧ AInv c (Scr.drawRows c fuel y s).1 (t.applyAll (Scr.drawRows c fuel y s).2) := by
   intro fuel
@@ -332,7 +356,7 @@ structure PreA (c : DrawCfg) (s : Scr) (t : ATerm) : Prop where
   ext : BInv c s
 
 /-- **every command of a draw is admissible**, whatever the display holds -/
-theorem draw_admits {c : DrawCfg} (hrw : RwOk c.rw) (hrb : RwB c.rw) (hp : Utf8Payload c) (hct : c.cornerTrick = false)
+theorem draw_admits {c : DrawCfg} (hrw : RwOk c.rw) (hrb : RwB c.rw) (hp : Utf8Payload c) (hct : c.Plain)
     (hhide : c.hasHide = true) {s : Scr} {t : ATerm} (pre : PreA c s t) : AdmitAll c t (s.draw c).2 := by
   rw [draw_eq]; simp only
   generalize hs0 : ({ s with cx := -1, cy := -1, curstyle := styleInvalid } : Scr) = s0
